@@ -4,7 +4,7 @@
 From Coq Require Import NArith ZArith List Bool String.
 From V Require Import Base.UString Model.PatternEq Spec.PatternSemantics
      Proofs.PatternEqCmp Proofs.PatternEqLists Proofs.PatternEqC Proofs.PatternEqDnf Proofs.PatternEqNorm
-     Proofs.PatternEqTop Proofs.PatternEqO Proofs.PatternEqWitness Proofs.PatternEqSort Proofs.PatternEqRecog Proofs.PatternEqErr Proofs.PatternEqIp4 Proofs.PatternEqValid.
+     Proofs.PatternEqTop Proofs.PatternEqO Proofs.PatternEqWitness Proofs.PatternEqSort Proofs.PatternEqRecog Proofs.PatternEqErr Proofs.PatternEqIp4 Proofs.PatternEqValid Proofs.PatternEqTerm Proofs.PatternEqTermDnf.
 Import ListNotations.
 
 (* ---- the comparators are lawful (reflexive, antisymmetric, transitive as a total preorder) ---- *)
@@ -297,10 +297,8 @@ Theorem never_raises_repaired_witness : equiv repaired 8 w_ip_int w_ip_int = Ok 
 Proof. exact repaired_answers. Qed.
 Print Assumptions never_raises_repaired_witness.
 
-(* never fails, repaired variant, arbitrary object models -- PARTIAL.  Full statement (not proved):
-     forall p q, valid_o p = true -> valid_o q = true -> exists fuel b, equiv repaired fuel p q = Ok b
-   What is missing is termination of the two settle loops only (see equiv_never_raises_up_to_fuel
-   below).  Proved here, without any hypothesis on the patterns: the only failures of the repaired model are fuel exhaustion and the
+(* never fails, repaired variant, ARBITRARY object models (also ones the constructors would reject):
+   the only failures of the repaired model are fuel exhaustion and the
    AttributeError of DNF on an AND all of whose distributed sets were pruned (never ValueError /
    TypeError / the AttributeErrors of the special-value pass); the harness counts fuel exhaustions
    (none at fuel 64 on any generated pattern). *)
@@ -311,11 +309,15 @@ Print Assumptions equiv_never_raises_partial.
 
 (* never fails, repaired variant, on patterns the object model's constructors accept (valid_o: every
    [ ... ] holds a comparison expression whose duplication succeeds with a non-empty set of root types,
-   which is what the parser builds once it maintains root_types -- proposed_fixes/C09-root-types-recomputed.diff).
-   "If the original AND node was legal, it is guaranteed that there will be at least one legal
-   distributed AND node" (DNFTransformer.transform_and): proved, so the AttributeError is excluded and
-   the ONLY failure left is fuel exhaustion.  Still partial in one respect: that some fuel suffices
-   (termination of the two settle loops) is not proved; the harness counts exhaustions (none). *)
+   which is what the parser builds since 749b4c8 maintains root_types).
+   (a) "If the original AND node was legal, it is guaranteed that there will be at least one legal
+       distributed AND node" (DNFTransformer.transform_and): proved, so the AttributeError is excluded.
+   (b) Termination: a settle round never grows the expression, a round that changes it either shrinks it
+       or only reorders operands, and a sorted tree is a fixed point of flatten/order/absorb
+       (<= 2*size+2 rounds); the comparison-level DNF recursion decreases the OR-nesting depth, the
+       observation-level one the OR-nesting depth between qualifiers; results other than fuel
+       exhaustion do not depend on the amount of fuel.
+   Together: equiv_never_raises, with no proviso left. *)
 Theorem dnf_never_fails_on_valid : forall fuel e,
     valid e -> match cdnf fuel e with Ok (e', _) => valid e' | Err x => x = EFuel end.
 Proof. exact cdnf_valid. Qed.
@@ -325,6 +327,32 @@ Theorem equiv_never_raises_up_to_fuel : forall fuel p q e,
     valid_o p = true -> valid_o q = true -> equiv repaired fuel p q = Err e -> e = EFuel.
 Proof. exact equiv_valid_err. Qed.
 Print Assumptions equiv_never_raises_up_to_fuel.
+
+Theorem settle_terminates_comparison : forall e, exists fuel r, csettle fuel e = Ok r.
+Proof. exact csettle_terminates. Qed.
+Print Assumptions settle_terminates_comparison.
+
+Theorem settle_terminates_observation : forall e, exists fuel r, osettle fuel e = Ok r.
+Proof. exact osettle_terminates. Qed.
+Print Assumptions settle_terminates_observation.
+
+Theorem dnf_terminates_comparison : forall e, exists fuel, cdnf fuel e <> Err EFuel.
+Proof. exact cdnf_terminates. Qed.
+Print Assumptions dnf_terminates_comparison.
+
+Theorem dnf_terminates_observation : forall e, exists fuel r, odnf fuel e = Ok r.
+Proof. exact odnf_terminates. Qed.
+Print Assumptions dnf_terminates_observation.
+
+Theorem equiv_fuel_independent : forall v fuel k p q b, equiv v fuel p q = Ok b -> equiv v (fuel + k) p q = Ok b.
+Proof. exact PatternEqTermDnf.equiv_fuel_independent. Qed.
+Print Assumptions equiv_fuel_independent.
+
+(* THE totality theorem *)
+Theorem equiv_never_raises : forall p q,
+    valid_o p = true -> valid_o q = true -> exists fuel b, forall k, equiv repaired (fuel + k) p q = Ok b.
+Proof. exact equiv_never_raises_valid. Qed.
+Print Assumptions equiv_never_raises.
 
 Example valid_o_satisfiable : valid_o w_bin_upper = true.
 Proof. vm_compute. reflexivity. Qed.
